@@ -206,6 +206,16 @@ class Report:
 
     # -- finishing ---------------------------------------------------------------------
     def finish(self, explanation, rule_text, level_note_assumptions=()):
+        if getattr(self, "deferred", False):
+            self._finish_args = (explanation, rule_text, level_note_assumptions)
+            return None
+        return self._finish(explanation, rule_text, level_note_assumptions)
+
+    def finish_now(self):
+        args = getattr(self, "_finish_args", ("engine did not finish", "n/a", ()))
+        return self._finish(*args)
+
+    def _finish(self, explanation, rule_text, level_note_assumptions=()):
         known = [k for k in load_known() if k.get("property") == self.prop]
         known_keys = {k["key"]: k for k in known if k.get("status") == "finding"}
         new = []
